@@ -9,6 +9,7 @@ Operation vocabulary (JSON lists; h = handle name, p = project index):
   ["init", h]
   ["dset", h, k, v] ["ddel", h, k] ["dclear", h] ["dreset", h, mapping]
   ["put", h, relpath, text]     job.init(); write a file below the job directory
+  ["spbad", h, mapping]         h.statepoint = mapping with an invalid (dotted) key: must raise and change nothing
   ["putlink", h, name, target, text]   job.init(); symlink name -> ABSOLUTE path of the job's file `target` (content text)
   ["clear", h] ["reset", h] ["remove", h]
   ["spset", h, k, v] ["spdel", h, k] ["spnest", h, k, k2, v] ["spassign", h, sp]
@@ -136,6 +137,9 @@ class RealWorld:
             H[op[1]].doc.clear()
         elif k == "dreset":
             H[op[1]].doc = op[2]
+        elif k == "spbad":
+            # a whole state point assignment that must be REJECTED (a key with a dot): no effect at all
+            H[op[1]].statepoint = op[2]
         elif k == "putlink":
             # a symbolic link inside the job directory with an ABSOLUTE target inside the same directory
             # (e.g. latest.dat -> <job>/run_0003.dat); op[4] is the content of the target
@@ -453,6 +457,8 @@ class PlainModel:
         if k == "putlink":
             self._ensure(op[1])["files"][op[2]] = op[4]
             return "ok"
+        if k == "spbad":
+            return "InvalidKeyError"
         if k == "clear":
             j = self._job(op[1])
             if j is not None:
@@ -636,7 +642,15 @@ def gen_ops(rng, length, nproj=2, rich=False, weights=None, allow_plant=False):
             else:
                 ops.append(["dreset", h, {rng.choice(DOC_KEYS): copy.deepcopy(rng.choice(DOC_VALS))}])
         elif k == "put":
-            ops.append(["put", rng.choice(handles), rng.choice(FILES), rng.choice(["", "A", "BB"])])
+            if rng.random() < 0.15:
+                bad = gen_sp(rng, rich)
+                bad[rng.choice(["b.c", "x.", ".y"])] = rng.choice([1, "v"])
+                # the invalid key last, first or in the middle: whatever was applied before it must be undone
+                items = list(bad.items())
+                rng.shuffle(items)
+                ops.append(["spbad", rng.choice(handles), dict(items)])
+            else:
+                ops.append(["put", rng.choice(handles), rng.choice(FILES), rng.choice(["", "A", "BB"])])
         elif k in ("clear", "reset", "remove"):
             ops.append([k, rng.choice(handles)])
         elif k == "spset":
@@ -722,6 +736,8 @@ def model_op(op, cached=None):
         return "dreset %s %s" % (op[1], enc_val(op[2]))
     if k == "put":
         return "put %s %s %s" % (op[1], S(op[2]), S(op[3]))
+    if k == "spbad":    # for the model: an operation refused with KeyError and no effect (deleting a key nobody has)
+        return "spdel %s %s" % (op[1], S("\u0001no such key"))
     if k == "putlink":  # for the model a link is the content it resolves to
         return "put %s %s %s" % (op[1], S(op[2]), S(op[4]))
     if k == "spset":
@@ -948,6 +964,8 @@ def lockstep(ops, ctx, nproj=2, check_handles=True, stop_at_first=True):
             views = rw.handle_views() if not check_handles else views
             hv = {n: {"p": views[n].get("proj"), "id": views[n].get("id")} for n in names if n in views}
             rres = real.split(":")[0]
+            if k == "spbad" and rres == "InvalidKeyError":
+                rres = "KeyError"
             if k == "openid" and real.startswith("ok:"):
                 rres = "ok=" + real[3:]
             rec["itok"] = ":".join([rres] + [ref_id({j: e["raw"] for j, e in obs[p]["jobs"].items()}) for p in range(2)]
